@@ -485,3 +485,15 @@ M("C16", "PCA pattern inverse without renaming V", "xeofs/preprocessing/pca.py",
 M("C11", "varimax returns the previous iteration's product", "xeofs/linalg/_numpy/_rotation.py", "    # De-normalize\n    X = h[:, np.newaxis] * X\n\n    # Rotate\n    Xrot = X @ R\n", "    Xrot = h[:, np.newaxis] * basis\n", "KERNEL.consistent")
 B("C11", "varimax final product through a temporary", "xeofs/linalg/_numpy/_rotation.py", "    # Rotate\n    Xrot = X @ R\n", "    Rfinal = R\n    Xrot = X @ Rfinal\n")
 M("C10", "inner EOF of ExtendedEOF standardises again", EEOF, "            center=True,\n            standardize=False,\n            use_coslat=False,\n            compute=self._params[\"compute\"],\n            check_nans=False,\n            sample_name=self.sample_name,\n            feature_name=self.feature_name,\n            solver=", "            center=True,\n            standardize=self._params[\"standardize\"],\n            use_coslat=False,\n            compute=self._params[\"compute\"],\n            check_nans=False,\n            sample_name=self.sample_name,\n            feature_name=self.feature_name,\n            solver=", "SPECIAL.embed.inner.once")
+
+# ---------------------------------------------------------------- round 5 and the cross-model mutation sweep
+XBASE = "xeofs/cross/base_model_cross_set.py"
+CP = "xeofs/cross/cpcca.py"
+M("C04", "cross transform skips whitening of X", XBASE, "            X = self.pca1.transform(X)\n            X = self.whitener1.transform(X)\n        if Y is not None:", "            X = self.pca1.transform(X)\n        if Y is not None:", "SPACE.forward.complete")
+M("C04", "predict skips the PCA stage", XBASE, "        X = self.preprocessor1.transform(X)\n        X = self.pca1.transform(X)\n\n        # Whiten X\n", "        X = self.preprocessor1.transform(X)\n\n        # Whiten X\n", "SPACE.forward.complete")
+M("C03", "normalized switch ignored for field 1", CP, "            if normalized:\n                scores1 = scores1 / norm1\n", "", "MIRROR.norms.switch.fields")
+M("C12", "container copied with the constructor", EEOF, "        self.data = model.data\n", "        self.data = DataContainer(model.data)\n", "LAZY.input.copy")
+M("C13", "coslat weights keep the coordinate's name", XU, '        weights.name = "coslat_weights"\n        return weights\n', "        return weights\n", "SERIAL.named")
+M("C03", "coslat weights keep the coordinate's name", XU, '        weights.name = "coslat_weights"\n        return weights\n', "        return weights\n", "MIRROR.state.named")
+B("C13", "coslat weights named through rename", XU, '        weights.name = "coslat_weights"\n        return weights\n', '        return weights.rename("coslat_weights")\n')
+M("C01", "components() scales the stored array in place", BMS, "            components = components * self.data[\"norms\"]\n", "            components *= self.data[\"norms\"]\n", "WIRE.query_mutates")
